@@ -1,4 +1,8 @@
 import ShuttleModel.Prim.Locks
+import ShuttleModel.Prim.Chan
+import ShuttleModel.Prim.Condvar
+import ShuttleModel.Prim.Barrier
+import ShuttleModel.Prim.Once
 /-
   Layer L — the program IR (shared verbatim with the Rust harness, DESIGN.md Appendix A) and its
   interpretation as a kernel `Program`.  Every case of `execOp` mirrors, call for call, what the
@@ -101,16 +105,45 @@ inductive Obj where
   | atomic (a : AtomicState)
   | mutex (m : MutexState)
   | rwlock (l : RwLockState)
+  | sem (s : SemState)
+  | chan (c : ChanState)
+  | condvar (c : CondvarState)
+  | barrier (b : BarrierState)
+  /-- a `Once` and the plain cell its initializer writes -/
+  | once (o : OnceState) (cell : Nat)
+  /-- a `thread_local!` key; `dtor` is the destructor behaviour (`none|log|touch:<t>|lock:<m>`) -/
+  | tls (dtor : String)
+  | lazy (z : LazyState)
   | bad
 deriving Repr, Inhabited
 
 inductive GuardKind where
   | m | r | w
+  /-- the `MutexGuard` on the flag of a `Once` (`o`) / of the `Once` inside a `Lazy` (`z`), alive
+  inside `call_once` -/
+  | o | z
 deriving Repr, DecidableEq, Inhabited
 
 structure Local where
   last : String := ""
   guards : List (Nat × GuardKind) := []     -- most recent last
+  /-- guards owned by library frames above the interpreter (dropped first when unwinding) -/
+  inner : List (Nat × GuardKind) := []
+  /-- channels (object indices) for which the task holds a `Sender` / the `Receiver` -/
+  tx : List Nat := []
+  rx : List Nat := []
+  /-- open `thread::scope`s, innermost first (indices into `Heap.scopes`) -/
+  scopes : List Nat := []
+  /-- thread-local storage (`StorageMap`): slots (`true` = alive, `false` = destructed) and the
+  insertion order of the alive ones -/
+  tlsSlots : List (Nat × Bool) := []
+  tlsOrder : List Nat := []
+deriving Repr, Inhabited
+
+/-- `Scope`: `num_running_threads`, `main_task` -/
+structure ScopeState where
+  running : Nat := 0
+  mainTask : Nat := 0
 deriving Repr, Inhabited
 
 structure Heap where
@@ -120,6 +153,7 @@ structure Heap where
   /-- join handle for body k still present -/
   handles : List Bool := []
   locals : List Local := []
+  scopes : List ScopeState := []
 deriving Repr, Inhabited
 
 namespace Heap
@@ -133,6 +167,19 @@ def mutexL (i : Nat) : Lens Heap MutexState :=
   (objL i).comp { get := fun o => match o with | .mutex a => a | _ => {}, set := fun a _ => .mutex a }
 def rwlockL (i : Nat) : Lens Heap RwLockState :=
   (objL i).comp { get := fun o => match o with | .rwlock a => a | _ => {}, set := fun a _ => .rwlock a }
+def semL (i : Nat) : Lens Heap SemState :=
+  (objL i).comp { get := fun o => match o with | .sem a => a | _ => SemState.constNew 0 false, set := fun a _ => .sem a }
+def chanL (i : Nat) : Lens Heap ChanState :=
+  (objL i).comp { get := fun o => match o with | .chan a => a | _ => {}, set := fun a _ => .chan a }
+def condvarL (i : Nat) : Lens Heap CondvarState :=
+  (objL i).comp { get := fun o => match o with | .condvar a => a | _ => {}, set := fun a _ => .condvar a }
+def barrierL (i : Nat) : Lens Heap BarrierState :=
+  (objL i).comp { get := fun o => match o with | .barrier a => a | _ => {}, set := fun a _ => .barrier a }
+def onceL (i : Nat) : Lens Heap OnceState :=
+  (objL i).comp { get := fun o => match o with | .once a _ => a | _ => {},
+                  set := fun a o => match o with | .once _ c => .once a c | _ => .once a 0 }
+def lazyL (i : Nat) : Lens Heap LazyState :=
+  (objL i).comp { get := fun o => match o with | .lazy a => a | _ => {}, set := fun a _ => .lazy a }
 
 def localL (k : Nat) : Lens Heap Local :=
   { get := fun h => (h.locals[k]?).getD {}, set := fun l h => { h with locals := h.locals.set k l } }
@@ -145,16 +192,37 @@ def mkObj (d : ObjDecl) : Obj :=
   | "atomic" => .atomic { value := a0 }
   | "mutex" => .mutex { value := a0 }
   | "rwlock" => .rwlock { value := a0 }
+  -- `BatchSemaphore::new` runs in task 0 at the start of the test body: the initial batch
+  -- carries `current::clock()` of task 0, which is `[0]` then
+  | "sem" => .sem (SemState.new a0 ((d.args[1]?).getD "" == "fair") (Clock.new.extend 0))
+  | "chan" =>
+    let spec := (d.args[0]?).getD "unb"
+    let bound : Option Nat :=
+      if spec == "unb" then none
+      else if spec == "rdv" then some 0
+      else some ((((spec.drop 4).toString).toNat?).getD 1)
+    .chan (ChanState.new bound)
+  | "condvar" => .condvar {}
+  | "barrier" => .barrier { bound := a0 }
+  | "once" => .once {} 0
+  | "tls" => .tls ((d.args[0]?).getD "none")
+  | "lazy" => .lazy {}
   | _ => .bad
 
 def IR.objIndex (ir : IR) (name : String) : Nat := (ir.objs.findIdx? (·.name == name)).getD ir.objs.length
 
+/-- `(name, index)` of the channels, in declaration order -/
+def IR.chans (ir : IR) : List (String × Nat) :=
+  (ir.objs.zipIdx.filter (fun p => p.1.kind == "chan")).map (fun p => (p.1.name, p.2))
+
 def IR.initHeap (ir : IR) : Heap :=
   let n := ir.tasks.length
+  let cs := ir.chans.map (·.2)
   { objs := ir.objs.map mkObj
     spawned := (some 0) :: List.replicate (n - 1) none
     handles := List.replicate n false
-    locals := List.replicate n {} }
+    -- task 0 starts with one `Sender` and the `Receiver` of every channel
+    locals := ({ tx := cs, rx := cs } : Local) :: List.replicate (n - 1) {} }
 
 /-! ### Operations -/
 
@@ -169,12 +237,68 @@ abbrev P := Prog Heap
 
 def wrap64 (v : Int) : Nat := (v % (2 ^ 64 : Int)).toNat
 
+def isTxOp (n : String) : Bool := n == "send" || n == "try_send" || n == "drop_tx"
+def isRxOp (n : String) : Bool := n == "recv" || n == "try_recv" || n == "drop_rx"
+def opsUse (ops : List Op) (pred : String → Bool) (cname : String) : Bool :=
+  ops.any (fun o => pred o.name && o.arg 0 == cname)
+
+def pushInner (k : Nat) (g : Nat × GuardKind) : P Unit := do
+  let l ← K.getL (Heap.localL k)
+  K.setL (Heap.localL k) { l with inner := g :: l.inner }
+
+def popInner (k : Nat) : P Unit := do
+  let l ← K.getL (Heap.localL k)
+  K.setL (Heap.localL k) { l with inner := l.inner.drop 1 }
+
+/-- the handle ownership rule applied when body `k` (at op index `pc`) spawns body `b`, before
+the spawn call: for each channel in declaration order, the parent clones its `Sender` for the
+child if the child's text has a sender op on it, and moves its `Receiver` to the child if the
+child's text has a receiver op on it and the parent's own remaining ops have none -/
+def transferHandlesGo (ir : IR) (k pc b : Nat) : List (String × Nat) → P Unit
+  | [] => pure ()
+  | (cname, ci) :: rest => do
+    let myOps := (((ir.tasks[k]?).getD {}).ops).drop (pc + 1)
+    let childOps := ((ir.tasks[b]?).getD {}).ops
+    let l ← K.getL (Heap.localL k)
+    if l.tx.contains ci && opsUse childOps isTxOp cname then do
+      Chan.cloneSender (Heap.chanL ci)
+      let c ← K.getL (Heap.localL b)
+      K.setL (Heap.localL b) { c with tx := c.tx ++ [ci] }
+    else pure ()
+    let l ← K.getL (Heap.localL k)
+    if l.rx.contains ci && opsUse childOps isRxOp cname && !opsUse myOps isRxOp cname then do
+      K.setL (Heap.localL k) { l with rx := l.rx.erase ci }
+      let c ← K.getL (Heap.localL b)
+      K.setL (Heap.localL b) { c with rx := c.rx ++ [ci] }
+    else pure ()
+    transferHandlesGo ir k pc b rest
+
+def transferHandles (ir : IR) (k pc b : Nat) : P Unit := transferHandlesGo ir k pc b ir.chans
+
+/-- `LocalKey::try_with` on key `oi` by body `k`: `init` (slot created, appended to the
+destruction order) | `seen` | `destroyed` (tombstone: `AccessError`) — no scheduling point -/
+def tlsTryWith (k : Nat) (oi : Nat) : P String := do
+  let l ← K.getL (Heap.localL k)
+  match l.tlsSlots.find? (·.1 == oi) with
+  | some (_, true) => pure "seen"
+  | some (_, false) => pure "destroyed"
+  | none =>
+    K.setL (Heap.localL k) { l with tlsSlots := l.tlsSlots ++ [(oi, true)], tlsOrder := l.tlsOrder ++ [oi] }
+    pure "init"
+
+/-- the end of `thread::scope`: `if num_running_threads != 0 { block; switch }` -/
+def scopeClose (sid : Nat) : P Unit := do
+  let h ← K.getU
+  let sc := (h.scopes[sid]?).getD {}
+  if sc.running != 0 then do K.block false; K.switch else pure ()
+
 /-- one IR operation of body `k`; the result string is what the harness logs -/
-def execOp (ir : IR) (k : Nat) (op : Op) : P String := do
+def execOp (ir : IR) (k : Nat) (pc : Nat) (op : Op) : P String := do
   let oi := ir.objIndex (op.arg 0)
   match op.name with
   | "spawn" =>
     let b := op.num 0
+    transferHandles ir k pc b
     K.switch
     let tid ← K.spawn false b
     let h ← K.getU
@@ -282,6 +406,116 @@ def execOp (ir : IR) (k : Nat) (op : Op) : P String := do
       | .m => Mutex.unlock (Heap.mutexL oi)
       | .r => RwLock.unlock (Heap.rwlockL oi) false
       | .w => RwLock.unlock (Heap.rwlockL oi) true
+      | .o | .z => pure ()
+      pure "ok"
+  -- BatchSemaphore used directly
+  | "acquire" => do
+    let ok ← Sem.acquireBlocking (Heap.semL oi) (op.num 1)
+    pure (if ok then "ok" else "closed")
+  | "try_acquire" => do
+    let r ← Sem.tryAcquire (Heap.semL oi) (op.num 1)
+    pure (match r with | .ok () => "ok" | .error .noPermits => "nopermits" | .error .closed => "closed")
+  | "release" => do Sem.release (Heap.semL oi) (op.num 1); pure "ok"
+  | "close" => do Sem.close (Heap.semL oi); pure "ok"
+  | "avail" => do let s ← K.getL (Heap.semL oi); pure s!"v:{s.avail}"
+  -- mpsc channels (handles are per task)
+  | "send" | "try_send" =>
+    let l ← K.getL (Heap.localL k)
+    if !l.tx.contains oi then pure "nosender" else do
+      let r ← Chan.sendInternal (Heap.chanL oi) (op.num 1) (op.name == "send")
+      pure (match r with | .ok => "ok" | .full => "err:full" | .disconnected => "err:disconnected")
+  | "recv" | "try_recv" =>
+    let l ← K.getL (Heap.localL k)
+    if !l.rx.contains oi then pure "norecv" else do
+      let r ← Chan.recvInternal (Heap.chanL oi) (op.name == "recv")
+      pure (match r with | .ok v => s!"v:{v}" | .empty => "err:empty" | .disconnected => "err:disconnected")
+  | "drop_tx" =>
+    let l ← K.getL (Heap.localL k)
+    if !l.tx.contains oi then pure "nosender" else do
+      K.setL (Heap.localL k) { l with tx := l.tx.erase oi }
+      Chan.dropSender (Heap.chanL oi)
+      pure "ok"
+  | "drop_rx" =>
+    let l ← K.getL (Heap.localL k)
+    if !l.rx.contains oi then pure "norecv" else do
+      K.setL (Heap.localL k) { l with rx := l.rx.erase oi }
+      Chan.dropReceiver (Heap.chanL oi)
+      pure "ok"
+  -- condvar
+  | "wait" =>
+    let mi := ir.objIndex (op.arg 1)
+    let l ← K.getL (Heap.localL k)
+    match (l.guards.zipIdx.reverse.find? (fun p => p.1.1 == mi && p.1.2 == .m)).map (·.2) with
+    | none => pure "noguard"
+    | some i =>
+      -- the guard moves into `Condvar::wait`; the one it returns is pushed back as the most recent
+      K.setL (Heap.localL k) { l with guards := l.guards.eraseIdx i }
+      let r ← Condvar.wait (Heap.condvarL oi) (Heap.mutexL mi)
+      let l ← K.getL (Heap.localL k)
+      K.setL (Heap.localL k) { l with guards := l.guards ++ [(mi, .m)] }
+      pure (lockResStr r)
+  | "notify_one" => do Condvar.notifyOne (Heap.condvarL oi); pure "ok"
+  | "notify_all" => do Condvar.notifyAll (Heap.condvarL oi); pure "ok"
+  -- barrier
+  | "bwait" => do
+    let leader ← Barrier.wait (Heap.barrierL oi)
+    pure (if leader then "leader" else "follower")
+  -- once
+  | "call_once" => do
+    let me ← K.me
+    let ran ← Once.callOnce (Heap.onceL oi)
+      (do K.emit s!"O {me} {k} init {op.arg 0}"
+          let o ← K.getL (Heap.objL oi)
+          match o with
+          | .once st _ => K.setL (Heap.objL oi) (.once st (op.num 1))
+          | _ => pure ())
+      (pushInner k (oi, .o)) (popInner k)
+    pure (if ran then "ran" else "skipped")
+  | "is_completed" => do
+    let b ← Once.isCompleted (Heap.onceL oi)
+    pure (if b then "true" else "false")
+  | "once_val" => do
+    let o ← K.getL (Heap.objL oi)
+    pure (match o with | .once _ c => s!"v:{c}" | _ => "v:0")
+  -- lazy_static
+  | "lazy_get" => do
+    let me ← K.me
+    let ran ← Lazy.get (Heap.lazyL oi) (K.emit s!"O {me} {k} lazyinit {op.arg 0}")
+      (pushInner k (oi, .z)) (popInner k)
+    pure (if ran then "init" else "seen")
+  -- thread-locals
+  | "tls_with" => tlsTryWith k oi
+  -- thread::scope
+  | "scope_begin" => do
+    let me ← K.me
+    let h ← K.getU
+    let sid := h.scopes.length
+    K.setU { h with scopes := h.scopes ++ [{ running := 0, mainTask := me }] }
+    let l ← K.getL (Heap.localL k)
+    K.setL (Heap.localL k) { l with scopes := sid :: l.scopes }
+    pure "ok"
+  | "scope_spawn" =>
+    let b := op.num 0
+    let l ← K.getL (Heap.localL k)
+    match l.scopes with
+    | [] => pure "noscope"
+    | sid :: _ => do
+      transferHandles ir k pc b
+      -- `Scope::spawn`: `num_running_threads.fetch_add(1)`, then `spawn_named_unchecked`
+      let h ← K.getU
+      K.setU { h with scopes := h.scopes.modify sid (fun sc => { sc with running := sc.running + 1 }) }
+      K.switch
+      let tid ← K.spawn false (b + (sid + 1) * ir.tasks.length)
+      let h ← K.getU
+      K.setU { h with spawned := h.spawned.set b (some tid) }
+      pure "ok"
+  | "scope_end" =>
+    let l ← K.getL (Heap.localL k)
+    match l.scopes with
+    | [] => pure "noscope"
+    | sid :: rest => do
+      K.setL (Heap.localL k) { l with scopes := rest }
+      scopeClose sid
       pure "ok"
   | other => K.panic s!"model: unknown op {other}"
 
@@ -290,6 +524,8 @@ def dropGuard (g : Nat × GuardKind) : P Unit :=
   | .m => Mutex.unlock (Heap.mutexL g.1)
   | .r => RwLock.unlock (Heap.rwlockL g.1) false
   | .w => RwLock.unlock (Heap.rwlockL g.1) true
+  | .o => Mutex.unlock (Once.mutexL (Heap.onceL g.1))
+  | .z => Mutex.unlock (Once.mutexL (Lazy.cellL (Heap.lazyL g.1)))
 
 /-- drop the remaining guards, most recent first -/
 def dropGuards (k : Nat) : Nat → P Unit
@@ -303,23 +539,49 @@ def dropGuards (k : Nat) : Nat → P Unit
       dropGuard g
       dropGuards k fuel
 
-/-- `run_task` of the harness: the ops of body `k`, `if … skip`, logging -/
+/-- end of `run_task`: the task's remaining channel handles are dropped, for each channel in
+declaration order the sender, then the receiver -/
+def dropHandles (k : Nat) : List (String × Nat) → P Unit
+  | [] => pure ()
+  | (_, ci) :: rest => do
+    let l ← K.getL (Heap.localL k)
+    if l.tx.contains ci then do
+      K.setL (Heap.localL k) { l with tx := l.tx.erase ci }
+      Chan.dropSender (Heap.chanL ci)
+    else pure ()
+    let l ← K.getL (Heap.localL k)
+    if l.rx.contains ci then do
+      K.setL (Heap.localL k) { l with rx := l.rx.erase ci }
+      Chan.dropReceiver (Heap.chanL ci)
+    else pure ()
+    dropHandles k rest
+
+/-- `run_task` of the harness: the ops of body `k`, `if … skip`, logging.  A `scope_begin` runs
+the following ops inside the closure given to `thread::scope`; reaching the end of the body inside
+a scope closes the scope(s) first (the closure returns). -/
 def runOps (ir : IR) (k : Nat) (ops : List Op) : Nat → Nat → P Unit
   | 0, _ => pure ()
   | fuel + 1, pc =>
     match ops[pc]? with
     | none => do
       let l ← K.getL (Heap.localL k)
-      dropGuards k (l.guards.length + 1)
-      let me ← K.me
-      K.emit s!"O {me} {k} end"
+      match l.scopes with
+      | sid :: rest => do
+        K.setL (Heap.localL k) { l with scopes := rest }
+        scopeClose sid
+        runOps ir k ops fuel pc
+      | [] => do
+        dropGuards k (l.guards.length + 1)
+        dropHandles k ir.chans
+        let me ← K.me
+        K.emit s!"O {me} {k} end"
     | some op =>
       if op.name == "if" then do
         let l ← K.getL (Heap.localL k)
         if l.last == op.arg 0 then runOps ir k ops fuel (pc + op.num 2 + 1)
         else runOps ir k ops fuel (pc + 1)
       else do
-        let res ← execOp ir k op
+        let res ← execOp ir k pc op
         let me ← K.me
         K.emit s!"O {me} {k} {pc} {res}"
         if ir.clocks then do
@@ -330,13 +592,47 @@ def runOps (ir : IR) (k : Nat) (ops : List Op) : Nat → Nat → P Unit
         K.setL (Heap.localL k) { l with last := res }
         runOps ir k ops fuel (pc + 1)
 
-/-- `thread_fn(f, switch_before_exit, result)` (thread-local destructors: see Prim/Thread) -/
-def threadFn (f : P Unit) (switchBeforeExit : Bool) : P Unit := do
+/-- the destructor of the harness's thread-local value for key `oi` (`Drop for TlsVal`) -/
+def tlsDtor (ir : IR) (k : Nat) (oi : Nat) : P Unit := do
+  let me ← K.me
+  let name := ((ir.objs[oi]?).map (·.name)).getD "?"
+  let o ← K.getL (Heap.objL oi)
+  let kind := match o with | .tls d => d | _ => "none"
+  if kind == "none" then pure ()
+  else do
+    K.emit s!"O {me} {k} dtor {name}"
+    if kind.startsWith "touch:" then do
+      let u := (kind.drop 6).toString
+      let r ← tlsTryWith k (ir.objIndex u)
+      K.emit s!"O {me} {k} touch {u} {r}"
+    else if kind.startsWith "lock:" then do
+      let mi := ir.objIndex (kind.drop 5).toString
+      let _ ← Mutex.lock (Heap.mutexL mi)
+      Mutex.unlock (Heap.mutexL mi)
+    else pure ()
+
+/-- `while let Some(local) = current_mut().pop_local() { drop(local) }` — `StorageMap::pop`
+takes the oldest still-alive slot and leaves a tombstone -/
+def tlsPopLoop (ir : IR) (k : Nat) : Nat → P Unit
+  | 0 => pure ()
+  | fuel + 1 => do
+    let l ← K.getL (Heap.localL k)
+    match l.tlsOrder with
+    | [] => pure ()
+    | key :: rest =>
+      K.setL (Heap.localL k) { l with tlsOrder := rest,
+                                      tlsSlots := l.tlsSlots.map (fun p => if p.1 == key then (key, false) else p) }
+      tlsDtor ir k key
+      tlsPopLoop ir k fuel
+
+/-- `thread_fn(f, switch_before_exit, result)` (shuttle-engine/src/thread_support.rs) -/
+def threadFn (ir : IR) (k : Nat) (f : P Unit) (switchBeforeExit : Bool) : P Unit := do
   f
   if switchBeforeExit then do
     let t ← K.exitTruncates
     if t then K.switch else pure ()
   else pure ()
+  tlsPopLoop ir k (ir.objs.length + 1)
   let w ← K.takeWaiter
   match w with
   | some t => K.unblock t
@@ -344,7 +640,26 @@ def threadFn (f : P Unit) (switchBeforeExit : Bool) : P Unit := do
 
 def IR.body (ir : IR) (k : Nat) : P Unit :=
   let ops := ((ir.tasks[k]?).getD {}).ops
-  threadFn (runOps ir k ops (ops.length + 1) 0) true
+  threadFn ir k (runOps ir k ops (2 * ops.length + 4) 0) true
+
+/-- the closure `Scope::spawn` wraps around a scoped thread's function (shuttle-std/src/thread.rs):
+its own pre-exit switch, `finished := true`, and — when it is the last running thread of the
+scope — an unconditional `unblock(main_task)` (F10); `thread_fn` is told not to switch again -/
+def IR.scopedBody (ir : IR) (k sid : Nat) : P Unit :=
+  let ops := ((ir.tasks[k]?).getD {}).ops
+  threadFn ir k (do
+    runOps ir k ops (2 * ops.length + 4) 0
+    let t ← K.exitTruncates
+    if t then K.switch else pure ()
+    let h ← K.getU
+    let sc := (h.scopes[sid]?).getD {}
+    K.setU { h with scopes := h.scopes.modify sid (fun sc => { sc with running := sc.running - 1 }) }
+    if sc.running == 1 then K.unblock sc.mainTask else pure ()) false
+
+/-- body indices `≥ tasks.length` denote scoped threads: `b + (sid + 1) * tasks.length` -/
+def IR.bodies (ir : IR) (n : Nat) : P Unit :=
+  let nt := ir.tasks.length
+  if nt == 0 || n < nt then ir.body n else ir.scopedBody (n % nt) (n / nt - 1)
 
 /-- unwinding of a panicking task: `st.guards` (a `Vec`) is dropped front to back -/
 def dropGuardsFront (k : Nat) : Nat → P Unit
@@ -358,6 +673,21 @@ def dropGuardsFront (k : Nat) : Nat → P Unit
       dropGuard g
       dropGuardsFront k fuel
 
+/-- guards owned by library frames (`call_once`): innermost frame first -/
+def dropInner (k : Nat) : Nat → P Unit
+  | 0 => pure ()
+  | fuel + 1 => do
+    let l ← K.getL (Heap.localL k)
+    match l.inner with
+    | [] => pure ()
+    | g :: rest =>
+      K.setL (Heap.localL k) { l with inner := rest }
+      dropGuard g
+      dropInner k fuel
+
+/-- what a panicking task's unwinding runs: the guards of library frames, then the fields of the
+harness's `TaskSt` in declaration order — `guards` (front to back), then the channel handles,
+whose `Drop` impls return at once because `should_stop()` holds while a panic is in flight -/
 def IR.unwind (ir : IR) (tid : Nat) : P Unit := do
   let h ← K.getU
   match h.spawned.findIdx? (· == some tid) with
@@ -365,9 +695,10 @@ def IR.unwind (ir : IR) (tid : Nat) : P Unit := do
   | some k =>
     let l ← K.getL (Heap.localL k)
     let _ := ir
+    dropInner k (l.inner.length + 1)
     dropGuardsFront k (l.guards.length + 1)
 
 def IR.program (ir : IR) : Program :=
-  { U := Heap, init := ir.initHeap, bodies := ir.body, unwind := ir.unwind }
+  { U := Heap, init := ir.initHeap, bodies := ir.bodies, unwind := ir.unwind }
 
 end ShuttleModel
